@@ -24,6 +24,15 @@ Theorem C20_static_output :
     /\ (length (filter accepted (so_run so_init (pre ++ SPush d :: post))) <= 1)%nat.
 Proof. intros A. exact (@static_output_main A). Qed.
 
+(** Spilling is invisible on a static output: for every number of targets, every memory limit
+    (none, 0, below / above the payload size) and every op history, the results (accepted / refused
+    publications, served values) are exactly those of the plain static output - in particular a
+    spilled first value does not make a second publication acceptable. *)
+Theorem C20_static_output_spill_invisible :
+  forall (A : Type) (k : nat) (limit : option Z) (size : Z) (ops : list (sop A)),
+    map fst (som_run k limit size (som_init, O) ops) = so_run so_init ops.
+Proof. intros. apply (som_run_erase k limit size ops som_init O). Qed.
+
 (** Static input in front of ANY source (a state machine [src_get], observed through a counter of
     the calls that reach it), any conversion [conv], any sequence of request times (or none):
     (a) a cached value is served for every later request and the source is never contacted again;
@@ -180,7 +189,13 @@ Proof.
   intros i Hi. destruct i as [|[|[|[|i]]]]; simpl; eexists; reflexivity.
 Qed.
 
+Example C20_static_output_spill_nonvacuous :
+  som_run 2 (Some 0) 8 (som_init, O) [SExch; SPush 1%nat; SPush 2%nat; SGet None]
+  = [(XNone, (0, 0)); (XPush (Ok tt), (1, 2)); (XPush (Err EStatic), (1, 2)); (XGet (Ok 1), (1, 2))]%nat.
+Proof. vm_compute. reflexivity. Qed.
+
 Print Assumptions C20_static_output.
+Print Assumptions C20_static_output_spill_invisible.
 Print Assumptions C20_static_input.
 Print Assumptions C20_callback_time.
 Print Assumptions C20_callback_time_fixed_delays.
